@@ -10,6 +10,7 @@ Only property theorems and non-vacuity examples live here; helper lemmas are in 
 Proofs/Prob7.lean, Proofs/Prob8.lean; moments in Proofs/Prob5.lean, Prob6.lean, Prob9.lean).
 -/
 import Prs.Proofs.FormulasPc
+import Prs.Proofs.FormulasStd
 import Prs.Proofs.Prob9
 import Mathlib.Data.Fin.VecNotation
 import Mathlib.Algebra.BigOperators.Field
@@ -181,6 +182,21 @@ theorem C06_source_var_unbiased (p : Fin K → ℚ) (hp : ∑ k, p k = 1) (hN : 
       = ∑ x : Fin N → Fin K, w p x * (pc1 (List.ofFn x)) ^ 2 - (∑ k, p k ^ 2) ^ 2 := by
   simp only [C06_source_varpc_n]
   exact C06_var_unbiased p hp hN
+
+/-- `stdpc_n` of pyrepseq/stats.py (Generated/FormulasStd: `varpc_n` inlined, under the real power 1/2) returns the square root of
+the variance estimate for the same counts -/
+theorem C06_source_stdpc_n (n : List ℕ) :
+    Generated.stdpc_n (castCountsR n) = Real.sqrt ((varpcN n : ℚ) : ℝ) := gen_stdpc_n_eq n
+
+/-- so its square is the variance estimate wherever that is not negative (for very small samples the estimate can be negative:
+NumPy then returns nan, `Real.sqrt` 0) -/
+theorem C06_source_std_sq (n : List ℕ) (h : 0 ≤ varpcN n) :
+    Generated.stdpc_n (castCountsR n) ^ 2 = ((varpcN n : ℚ) : ℝ) ∧ 0 ≤ Generated.stdpc_n (castCountsR n) := by
+  rw [C06_source_stdpc_n]
+  exact ⟨Real.sq_sqrt (by exact_mod_cast h), Real.sqrt_nonneg _⟩
+
+/-- non-vacuity: counts (3, 2, 1) have a non-negative variance estimate -/
+example : 0 ≤ varpcN [3, 2, 1] := by decide +kernel
 
 end Prs
 
